@@ -31,7 +31,7 @@ func cases(tier string) int {
 	if tier == "thorough" {
 		return 6000
 	}
-	return 240
+	return 480
 }
 
 var Check = &run.Check{
